@@ -23,7 +23,7 @@ mut('c01_seekable_put_size', 'C01', U, "        size = fileobj.tell() + transfer
     'seekable stream at a non-zero start offset, single PutObject: body truncated')
 mut('c01_parts_completion_order', 'C01', T, "            MultipartUpload={'Parts': parts},\n            **extra_args,",
     "            MultipartUpload={'Parts': sorted(parts, key=lambda p: p['ETag'])},\n            **extra_args,", 'parts not listed in ascending order')
-mut('c01_chunk_seek_offset', 'C01', UT, "        where += self._start_byte\n        if whence == 1:", "        if whence == 1:",
+mut('c01_chunk_seek_offset', 'C01', UT, "        self._fileobj.seek(max(where, self._start_byte))", "        self._fileobj.seek(max(where - self._start_byte, 0))",
     'rewind of a part body (client retry) seeks to the wrong file position')
 mut('c02_retry_index_not_reset', 'C02', D, "            try:\n                current_index = start_index\n                response = client.get_object(",
     "            try:\n                response = client.get_object(", 'NameError -> replaced below')
@@ -52,8 +52,8 @@ mut('c08_callbacks_not_cleared', 'C08', F, "            self._run_callbacks(self
     'on_done runs twice when done is announced twice')
 mut('c09_rewind_sign', 'C09', D, "                    callbacks, start_index - current_index\n", "                    callbacks, current_index - start_index\n", 'download retry adds instead of rewinding progress')
 mut('c09_no_flush', 'C09', U, "        return [callback.flush for callback in aggregated_progress_callbacks]", "        return []", 'progress below 256 KiB never delivered')
-mut('c09_seek_unbounded', 'C09', UT, "            bounded_where = max(min(where - self._start_byte, self._size), 0)\n            bounded_amount_read = min(self._amount_read, self._size)",
-    "            bounded_where = where - self._start_byte\n            bounded_amount_read = self._amount_read", 'rewind delta not bounded by the chunk size')
+mut('c09_copy_last_part_size', 'C09', CP, "            return total_transfer_size - (part_index * part_size)\n        return part_size", "            return part_size\n        return part_size",
+    'multipart copy reports a full part for the short last part')
 mut('c10_request_pool_size', 'C10', MG, "            max_num_threads=self._config.max_request_concurrency,", "            max_num_threads=self._config.max_submission_concurrency,",
     'request stage sized by the submission limit')
 mut('c10_io_two_threads', 'C10', MG, "            max_size=self._config.max_io_queue_size,\n            max_num_threads=1,", "            max_size=self._config.max_io_queue_size,\n            max_num_threads=2,",
